@@ -257,3 +257,65 @@ Proof.
   assert (Hi2 : i + 1 <= d / k) by lia. apply div_ge_iff in Hi2; [|lia].
   unfold c2. nia.
 Qed.
+
+(* ---- the same with an alignment remainder r = (s*s2) mod s1 ------------------- *)
+Lemma align_index_r s i s1 s2 q r :
+  0 < s1 -> s * s2 = q * s1 + r -> (s + i) * s2 / s1 = q + (r + i * s2) / s1.
+Proof.
+  intros H1 Hq. replace ((s + i) * s2) with ((r + i * s2) + q * s1) by lia.
+  rewrite Z.div_add by lia. lia.
+Qed.
+
+Lemma scale_shift_r e2 s q r s1 s2 :
+  0 < s2 -> s * s2 = q * s1 + r -> e2 * s1 / s2 = ((e2 - q) * s1 - r) / s2 + s.
+Proof.
+  intros H2 Hq. replace (e2 * s1) with (((e2 - q) * s1 - r) + s * s2) by lia.
+  rewrite Z.div_add by lia. lia.
+Qed.
+
+Lemma bin_count_fin_r s1 s2 c1 d r :
+  0 < s1 -> 0 < s2 -> 0 < c1 -> 0 < d -> 0 <= r < s1 ->
+  let num2 := cdiv (r + c1 * s2) s1 in
+  let c2 := Z.min num2 d in
+  let n1 := alim c2 c1 s1 s2 r in
+  0 < c2 /\ n1 = Z.min c1 ((d * s1 - r) / s2) /\ (forall i, 0 <= i < n1 -> (r + i * s2) / s1 < c2).
+Proof.
+  intros H1 H2 Hc Hd Hr num2 c2 n1.
+  assert (Hnum : 0 < num2) by (apply cdiv_pos; nia).
+  assert (Hge : r + c1 * s2 <= num2 * s1) by (apply cdiv_ge; lia).
+  assert (Hc2 : 0 < c2) by (unfold c2; lia).
+  split; [exact Hc2|].
+  assert (HF : 0 <= (d * s1 - r) / s2) by (apply Z.div_pos; nia).
+  assert (Hn1 : n1 = Z.min c1 ((d * s1 - r) / s2)).
+  { unfold n1, alim. cbv zeta.
+    destruct (Z.le_ge_cases num2 d) as [Hle|Hgt].
+    - assert (Ec : c2 = num2) by (unfold c2; lia). rewrite Ec.
+      assert (c1 <= (num2 * s1 - r) / s2) by (apply div_ge_iff; nia).
+      assert ((num2 * s1 - r) / s2 <= (d * s1 - r) / s2) by (apply Z.div_le_mono; nia).
+      destruct (Z.ltb_spec ((num2 * s1 - r) / s2) c1); lia.
+    - assert (Ec : c2 = d) by (unfold c2; lia). rewrite Ec.
+      destruct (Z.ltb_spec ((d * s1 - r) / s2) c1); lia. }
+  split; [exact Hn1|].
+  intros i Hi. rewrite Hn1 in Hi.
+  apply div_lt_iff; [lia|].
+  assert (Hi1 : i + 1 <= c1) by lia.
+  assert (Hi2 : i + 1 <= (d * s1 - r) / s2) by lia.
+  apply div_ge_iff in Hi2; [|lia].
+  unfold c2. destruct (Z.le_ge_cases num2 d); [rewrite Z.min_l by lia | rewrite Z.min_r by lia]; nia.
+Qed.
+
+Lemma bin_count_inf_r s1 s2 c1 r :
+  0 < s1 -> 0 < s2 -> 0 < c1 -> 0 <= r < s1 ->
+  let c2 := cdiv (r + c1 * s2) s1 in
+  let n1 := alim c2 c1 s1 s2 r in
+  0 < c2 /\ n1 = c1 /\ (forall i, 0 <= i < n1 -> (r + i * s2) / s1 < c2).
+Proof.
+  intros H1 H2 Hc Hr c2 n1.
+  assert (Hnum : 0 < c2) by (apply cdiv_pos; nia).
+  assert (Hge : r + c1 * s2 <= c2 * s1) by (apply cdiv_ge; lia).
+  split; [exact Hnum|].
+  assert (Hn1 : n1 = c1).
+  { unfold n1, alim. cbv zeta. assert (c1 <= (c2 * s1 - r) / s2) by (apply div_ge_iff; nia).
+    destruct (Z.ltb_spec ((c2 * s1 - r) / s2) c1); lia. }
+  split; [exact Hn1|]. intros i Hi. rewrite Hn1 in Hi. apply div_lt_iff; [lia|]. nia.
+Qed.
